@@ -16,7 +16,8 @@ use std::sync::Arc;
 
 struct ReqSocketBackend {
     pub(crate) peers: scc::HashMap<PeerIdentity, Peer>,
-    pub(crate) round_robin: SegQueue<PeerIdentity>,
+    pub(crate) round_robin: SegQueue<(PeerIdentity, u64)>,
+    next_serial: std::sync::atomic::AtomicU64,
     socket_monitor: Mutex<Option<mpsc::Sender<SocketEvent>>>,
     socket_options: SocketOptions,
 }
@@ -48,7 +49,7 @@ impl SocketSend for ReqSocket {
         // items from queue. So in such case we'll just pop item and skip it if
         // we don't have a matching peer in peers map
         loop {
-            let next_peer_id = match self.backend.round_robin.pop() {
+            let (next_peer_id, serial) = match self.backend.round_robin.pop() {
                 Some(peer) => peer,
                 None => {
                     return Err(ZmqError::ReturnToSender {
@@ -58,7 +59,11 @@ impl SocketSend for ReqSocket {
                 }
             };
             if let Some(mut peer) = self.backend.peers.get_async(&next_peer_id).await {
-                self.backend.round_robin.push(next_peer_id.clone());
+                if peer.serial != serial {
+                    // an entry of an earlier registration of this identity
+                    continue;
+                }
+                self.backend.round_robin.push((next_peer_id.clone(), serial));
                 message.push_front(Bytes::new());
                 let sent = peer.send_queue.send(Message::Message(message)).await;
                 drop(peer);
@@ -130,6 +135,7 @@ impl Socket for ReqSocket {
             backend: Arc::new(ReqSocketBackend {
                 peers: scc::HashMap::new(),
                 round_robin: SegQueue::new(),
+                next_serial: std::sync::atomic::AtomicU64::new(0),
                 socket_monitor: Mutex::new(None),
                 socket_options: options,
             }),
@@ -157,17 +163,21 @@ impl Socket for ReqSocket {
 impl MultiPeerBackend for ReqSocketBackend {
     async fn peer_connected(self: Arc<Self>, peer_id: &PeerIdentity, io: FramedIo) {
         let (recv_queue, send_queue) = io.into_parts();
+        let serial = self
+            .next_serial
+            .fetch_add(1, std::sync::atomic::Ordering::Relaxed);
         self.peers
             .upsert_async(
                 peer_id.clone(),
                 Peer {
                     _identity: peer_id.clone(),
+                    serial,
                     send_queue,
                     recv_queue,
                 },
             )
             .await;
-        self.round_robin.push(peer_id.clone());
+        self.round_robin.push((peer_id.clone(), serial));
     }
 
     fn peer_disconnected(&self, peer_id: &PeerIdentity) {
